@@ -90,6 +90,9 @@ impl<'a> GlueMessage<'a> {
             }
         };
 
+        let interfaces_unlisted_deserialization_attempts =
+            interfaces.emit_unlisted_deserialization_attempts();
+
         let ctx_type = msg_ty.emit_ctx_type(&custom.query_or_default());
         let ret_type = msg_ty.emit_result_type(&custom.msg_or_default(), &error.error);
 
@@ -209,6 +212,20 @@ impl<'a> GlueMessage<'a> {
                     if let #sylvia ::serde_value::Value::String(recv_msg_name) = &recv_msg_name .0 {
                         #(#interfaces_deserialization_attempts)*
                         #contract_deserialization_attempt
+                    }
+
+                    // The tables hold the default names of the messages only. A name added with a
+                    // forwarded `serde(alias = ..)` or `serde(rename = ..)` is known to its own
+                    // message: such a document belongs to the single message able to decode it.
+                    let mut sv_unlisted_msg: Option<Self> = None;
+                    let mut sv_unlisted_cnt = 0usize;
+                    #(#interfaces_unlisted_deserialization_attempts)*
+                    if let Ok(msg) = val.clone().deserialize_into() {
+                        sv_unlisted_msg = Some(Self:: #contract_name (msg));
+                        sv_unlisted_cnt += 1;
+                    }
+                    if let (1, Some(msg)) = (sv_unlisted_cnt, sv_unlisted_msg) {
+                        return Ok(msg);
                     }
 
                     let msgs: [&[&str]; #variants_cnt] = [#(#messages_call),*];
